@@ -46,7 +46,8 @@ Record hstop := HStop { hp_t0 : N; hp_t1 : N; hp_ok : bool }.
 
 Record shist := SHist { sh_subs : list hsub; sh_terms : list hterm; sh_stops : list hstop }.
 
-Inductive tpc := TIdle | TGate (t0 : N) | TWork | TFin.
+Inductive tpc := TIdle | TGate (t0 : N) | TWork | TFin
+  | TChecked (t0 : N).   (* only used by the variant [sstep_split] below *)
 Inductive kpc := KIdle | KSet (t0 : N) | KOnce (t0 : N) | KWait (t0 : N).
 
 Inductive sev :=
@@ -135,6 +136,34 @@ Definition sstep (c : scfg) (st0 : sstate) (e : sev) : sstate :=
   end.
 
 Definition srun (c : scfg) (evs : list sev) : sstate := fold_left (sstep c) evs sinit.
+
+(* VARIANT (not the code that exists; seeded change C41-a): the lifecycle check and
+   the admission are two critical sections — TGate reads [stopping] under the
+   read lock and releases it (TChecked), the in-flight counter grows later with
+   no lock held.  Everything else is [sstep]. *)
+Definition sstep_split (c : scfg) (st0 : sstate) (e : sev) : sstate :=
+  match e with
+  | STask t r =>
+      match s_tpc st0 t with
+      | TGate t0 =>
+          let now := s_now st0 + 1 in
+          if s_stopping st0
+          then SSt now (s_stopping st0) (s_cancelled st0) (s_dstarted st0) (s_done st0) (s_inflight st0)
+                   (upd (s_tpc st0) t TFin) (s_kpc st0)
+                   (s_subs st0 ++ [HSub t t0 now false]) (s_terms st0) (s_stops st0)
+          else SSt now (s_stopping st0) (s_cancelled st0) (s_dstarted st0) (s_done st0) (s_inflight st0)
+                   (upd (s_tpc st0) t (TChecked t0)) (s_kpc st0) (s_subs st0) (s_terms st0) (s_stops st0)
+      | TChecked t0 =>
+          let now := s_now st0 + 1 in
+          SSt now (s_stopping st0) (s_cancelled st0) (s_dstarted st0) (s_done st0) (s_inflight st0 + 1)
+              (upd (s_tpc st0) t TWork) (s_kpc st0)
+              (s_subs st0 ++ [HSub t t0 now true]) (s_terms st0) (s_stops st0)
+      | _ => sstep c st0 e
+      end
+  | _ => sstep c st0 e
+  end.
+
+Definition srun_split (c : scfg) (evs : list sev) : sstate := fold_left (sstep_split c) evs sinit.
 
 Definition shist_of (st : sstate) : shist := SHist (s_subs st) (s_terms st) (s_stops st).
 
